@@ -82,7 +82,7 @@ Theorem subst_anon_index :
       subst_items pre ps O = Some o1 /\
       nth_error ps (count_anon pre) = Some v /\
       subst_items post ps (S (count_anon pre)) = Some o2 /\
-      out = o1 ++ render v ++ o2.
+      out = o1 ++ emit v ++ o2.
 Proof. exact anon_index_l. Qed.
 
 (* $n receives the n-th bound value wherever it stands, and does not advance the anonymous counter *)
@@ -93,7 +93,7 @@ Theorem subst_positional_index :
       subst_items pre ps O = Some o1 /\
       nth_error ps (Z.to_nat (n - 1)) = Some v /\
       subst_items post ps (count_anon pre) = Some o2 /\
-      out = o1 ++ render v ++ o2.
+      out = o1 ++ emit v ++ o2.
 Proof. exact pos_index_l. Qed.
 
 (* ---- the other literals *)
@@ -119,8 +119,8 @@ Theorem blob_is_one_token :
     option_map (cons (KHex, render (VBlob b))) (lex_loop f rest).
 Proof. exact blob_one_token_l. Qed.
 
-(* every NULL / boolean / integer / text / blob value outside the recorded class (i64::MIN) is
-   read back from its literal as exactly the bound value *)
+(* every NULL / boolean / integer / text / blob value outside the recorded class (i64::MIN, which
+   eval_literal cannot read) is read back from its literal as exactly the bound value *)
 Theorem literal_roundtrip :
   forall v, val_ok v = true -> is_float v = false -> val_class v = 0 ->
     read_literal (render v) = lit_of v.
@@ -146,12 +146,14 @@ Theorem subst_keeps_tokens :
     exists want, expand_items items ps O = Some want /\ lex out = Some want.
 Proof. exact subst_keeps_tokens_l. Qed.
 
-(* ... where the tokens of a literal are what the lexer makes of the literal alone *)
+(* ... where the tokens of a literal are what the lexer makes of the written text alone (`emit v`:
+   the literal, after one space when it starts with a minus sign) *)
 Theorem literal_tokens :
-  forall v, simple_val v = true -> lex (render v) = Some (lit_items v).
+  forall v, simple_val v = true -> lex (emit v) = Some (lit_items v).
 Proof. exact lex_render. Qed.
 
-(* so outside finding class 7 (tokens fusing) the model's own check can never fail *)
+(* so for such statements the model's own stability check (Corr: class 7, now without a recorded
+   finding) can never fail *)
 Theorem subst_stable_when_isolated :
   forall sql ps items out,
     lex sql = Some items -> isolated true items = true -> forallb simple_val ps = true ->
@@ -166,16 +168,13 @@ Proof. exact literal_roundtrip_refuted_l. Qed.
 Theorem int_min_refuted : read_literal (render (VInt i64_min)) = LIntOverflow.
 Proof. exact int_min_refuted_l. Qed.
 
-Theorem float_as_int_refuted :
-  let v := VFloat 4607182418800017408 [49] in
-  val_class v = 5 /\ read_literal (render v) = LInt 1.
-Proof. exact float_as_int_refuted_l. Qed.
-
-Theorem minus_merge_refuted :
-  subst [97; 45; 63] [VInt (-5)] = SOk [97; 45; 45; 53] /\
-  subst_stable [97; 45; 63] [VInt (-5)] = false /\
-  lex [97; 45; 45; 53] = Some [(KId, [97]); (KCom, [45; 45; 53])].
-Proof. exact minus_merge_refuted_l. Qed.
+(* since e081981 a negative number bound directly after a minus sign is kept apart from it
+   (it used to fuse into a `--` comment: finding F-C13-7, fixed) *)
+Theorem minus_kept_apart :
+  subst [97; 45; 63] [VInt (-5)] = SOk [97; 45; 32; 45; 53] /\
+  subst_stable [97; 45; 63] [VInt (-5)] = true /\
+  lex [97; 45; 32; 45; 53] = Some [(KId, [97]); (KMinus, [45]); (KWs, [32]); (KMinus, [45]); (KInt, [53])].
+Proof. exact minus_kept_apart_l. Qed.
 
 (* non-vacuity: hostile text goes through; placeholders inside a string, a comment and a quoted
    identifier stay, the two real ones are replaced; the hypotheses of the theorems are met *)
@@ -223,11 +222,11 @@ Check subst_only_params : forall k txt t ps i, is_param k = false ->
 Check subst_anon_index : forall pre txt post ps out,
     subst_items (pre ++ (KAnon, txt) :: post) ps O = Some out ->
     exists o1 v o2, subst_items pre ps O = Some o1 /\ nth_error ps (count_anon pre) = Some v /\
-      subst_items post ps (S (count_anon pre)) = Some o2 /\ out = o1 ++ render v ++ o2.
+      subst_items post ps (S (count_anon pre)) = Some o2 /\ out = o1 ++ emit v ++ o2.
 Check subst_positional_index : forall pre n txt post ps out,
     subst_items (pre ++ (KPos n, txt) :: post) ps O = Some out ->
     exists o1 v o2, subst_items pre ps O = Some o1 /\ nth_error ps (Z.to_nat (n - 1)) = Some v /\
-      subst_items post ps (count_anon pre) = Some o2 /\ out = o1 ++ render v ++ o2.
+      subst_items post ps (count_anon pre) = Some o2 /\ out = o1 ++ emit v ++ o2.
 Check int_literal_roundtrip : forall z, i64_min < z <= i64_max -> read_literal (render (VInt z)) = LInt z.
 Check int_literal_tokens : forall z rest f, i64_min <= z <= i64_max -> num_follow_ok rest = true ->
     lex_loop (S (S f)) (render (VInt z) ++ rest) =
@@ -243,19 +242,17 @@ Check subst_keeps_tokens : forall sql ps items out,
     lex sql = Some items -> isolated true items = true -> forallb simple_val ps = true ->
     subst_items items ps O = Some out ->
     exists want, expand_items items ps O = Some want /\ lex out = Some want.
-Check literal_tokens : forall v, simple_val v = true -> lex (render v) = Some (lit_items v).
+Check literal_tokens : forall v, simple_val v = true -> lex (emit v) = Some (lit_items v).
 Check subst_stable_when_isolated : forall sql ps items out,
     lex sql = Some items -> isolated true items = true -> forallb simple_val ps = true ->
     subst_items items ps O = Some out -> subst_stable sql ps = true.
 Check literal_roundtrip_refuted :
   exists v, val_ok v = true /\ is_float v = false /\ val_class v = 6 /\ read_literal (render v) <> lit_of v.
 Check int_min_refuted : read_literal (render (VInt i64_min)) = LIntOverflow.
-Check float_as_int_refuted : let v := VFloat 4607182418800017408 [49] in
-  val_class v = 5 /\ read_literal (render v) = LInt 1.
-Check minus_merge_refuted :
-  subst [97; 45; 63] [VInt (-5)] = SOk [97; 45; 45; 53] /\
-  subst_stable [97; 45; 63] [VInt (-5)] = false /\
-  lex [97; 45; 45; 53] = Some [(KId, [97]); (KCom, [45; 45; 53])].
+Check minus_kept_apart :
+  subst [97; 45; 63] [VInt (-5)] = SOk [97; 45; 32; 45; 53] /\
+  subst_stable [97; 45; 63] [VInt (-5)] = true /\
+  lex [97; 45; 32; 45; 53] = Some [(KId, [97]); (KMinus, [45]); (KWs, [32]); (KMinus, [45]); (KInt, [53])].
 
 Print Assumptions lex_total.
 Print Assumptions quote_unquote.
@@ -279,5 +276,4 @@ Print Assumptions literal_tokens.
 Print Assumptions subst_stable_when_isolated.
 Print Assumptions literal_roundtrip_refuted.
 Print Assumptions int_min_refuted.
-Print Assumptions float_as_int_refuted.
-Print Assumptions minus_merge_refuted.
+Print Assumptions minus_kept_apart.
